@@ -4,7 +4,8 @@ from .. import lean, proto, gen, util
 
 REQUIRED = ['Petl.C14.' + n for n in (
     'transpose_involutive unflatten_flatten melt_row_count melt_cells unpack_frame expand_frame splitdown_frame '
-    'fromcolumns_columns recast_cell').split()]
+    'fromcolumns_columns recast_cell').split()] + ['Petl.RecastMelt.' + n for n in (
+    'recast_melt_rows recast_melt_eq recast_melt_table recast_melt_identity molten_eq_melt group_block strictAsc_ext').split()]
 
 CELLS = [None, 1, 2, 2.5, 'a', 'b', '', True]
 KEYS = [None, 1, 2, 3, 'a', 'b', 2.5, (1, 'a')]
@@ -58,7 +59,7 @@ def run(ctx):
                 'melt/unpack. Real vs model (exact) and the inverse identities on the real code. Non-trivial: >= 2 data rows.')
     ctx.assumptions += ['re (regex results are passed to the model), sorted() on field names / pivot values of one type',
                         'dict cells are coded as sequences of (key, value) pairs']
-    ctx.prove(['PetlProofs.Props.C14'], REQUIRED)
+    ctx.prove(['PetlProofs.Props.C14', 'PetlProofs.RecastMelt'], REQUIRED)
     rng = ctx.rng
     n = 1200 if ctx.thorough() else 200
     jobs = []
